@@ -8,6 +8,10 @@ PY = '/venv/bin/python'
 
 MC = 'model_checking'
 CHECKS = {
+    'C19': (MC, 'exhaustive enumeration of bounded scenarios (all action blocks x all predefined then-steps x argument domains) run through execute_bdd, against an oracle driving a plain Interpreter',
+            'Every scenario made of a when-block of <=2 predefined steps (optionally after a given step, followed by a given step, or as second block after a then) and one then-step of every predefined pattern and argument (true and false assertions in similar numbers) is executed by execute_bdd on two charts; each step status from behave\'s JSON report must equal the truth of the asserted fact computed from the macro steps / state of a plain Interpreter fed the same actions; sismic.testing predicates are compared with the macro steps; the exit code must reflect the verdicts.',
+            'Two small charts and the listed action/argument alphabets; behave stops a scenario at the first failure so each when-block carries one verdict.',
+            '§4 C19'),
     'C15': (MC, 'explicit-state BFS over systems of bound interpreters and callables (bind/detach at any point, also in the middle of a step), lock-step with reference mailboxes',
             'BFS (depth 5-7) over queue/execute_once/clock/bind/detach on systems of 2 and 3 interpreters with recording callables and a callable that detaches a listener while it is being notified; cycles and self-binding arise by reachability. Each step must consume the predicted event (identity by serial) and report the predicted sent events; the global delivery log of the callables must equal the reference exactly; every state is drained with exactly-once accounting.',
             'Trusts the reference mailbox model (80 lines); depth-bounded; <= 2-3 listeners per interpreter.',
